@@ -34,7 +34,107 @@ func init() {
 			helpers[m.Name.Name] = containsCall(m.Body, "Lock")
 		}
 		c.Fact("eventstore.helpers_lock", helpers)
+
+		// Structural facts about the After ITERATOR (the iterator-as-a-value model, EventStore/Model.lean `Iter`):
+		// copyData (the one critical section) returns a CLONE of the retained tail, never a view of dl.data;
+		// the returned iterator takes its snapshot by calling copyData once, delivers by ranging over that
+		// private slice, touches neither the store nor the lock, and ends early only after yielding the error
+		// or when the consumer says stop; After's context parameter is unused (`_`).
+		if after := c.Func("mcp", "MemoryEventStore", "After"); after != nil && after.Body != nil {
+			c.Fact("eventstore.after_snapshot", afterSnapshot(c, after))
+			c.Fact("eventstore.after_delivery", afterDelivery(c, after))
+			ctxName := "?"
+			if ps := after.Type.Params.List; len(ps) > 0 && len(ps[0].Names) > 0 {
+				ctxName = ps[0].Names[0].Name
+			}
+			c.Fact("eventstore.after_ctx_unused", map[string]any{"param": ctxName, "ident_ctx_in_body": usesIdent(after.Body, "ctx")})
+		} else {
+			c.Errf("eventstore: MemoryEventStore.After not found")
+		}
 	})
+}
+
+// afterSnapshot: the first results of the return statements of After's copyData closure, in order, and
+// whether the closure holds the lock for its whole body.
+func afterSnapshot(c *Ctx, after *ast.FuncDecl) map[string]any {
+	res := map[string]any{"closure": "missing"}
+	as, ok := after.Body.List[0].(*ast.AssignStmt)
+	if !ok || len(as.Rhs) != 1 || len(as.Lhs) != 1 {
+		return res
+	}
+	fl, ok := as.Rhs[0].(*ast.FuncLit)
+	if !ok {
+		return res
+	}
+	res["closure"] = c.Src(as.Lhs[0])
+	res["locked"] = isLockPair(c, fl.Body.List)
+	var rets []string
+	ast.Inspect(fl.Body, func(n ast.Node) bool {
+		if _, ok := n.(*ast.FuncLit); ok {
+			return false
+		}
+		if r, ok := n.(*ast.ReturnStmt); ok && len(r.Results) > 0 {
+			rets = append(rets, c.Src(r.Results[0]))
+		}
+		return true
+	})
+	res["returns"] = rets
+	return res
+}
+
+// afterDelivery: the shape of the iterator After returns (its last statement `return func(yield ...) {...}`).
+func afterDelivery(c *Ctx, after *ast.FuncDecl) map[string]any {
+	res := map[string]any{"iterator": "missing"}
+	rs, ok := after.Body.List[len(after.Body.List)-1].(*ast.ReturnStmt)
+	if !ok || len(rs.Results) != 1 {
+		return res
+	}
+	fl, ok := rs.Results[0].(*ast.FuncLit)
+	if !ok {
+		return res
+	}
+	res["iterator"] = "func-literal"
+	res["statements_of_After"] = len(after.Body.List)
+	var stmts []string
+	for _, st := range fl.Body.List {
+		switch x := st.(type) {
+		case *ast.RangeStmt:
+			stmts = append(stmts, "range "+c.Src(x.X)+" {"+joinStmts(c, x.Body.List)+"}")
+		case *ast.IfStmt:
+			stmts = append(stmts, "if "+c.Src(x.Cond)+" {"+joinStmts(c, x.Body.List)+"}")
+		default:
+			stmts = append(stmts, c.Src(st))
+		}
+	}
+	res["body"] = stmts
+	res["touches_store"] = usesIdent(fl.Body, "s") || usesIdent(fl.Body, "dl")
+	return res
+}
+
+func joinStmts(c *Ctx, l []ast.Stmt) string {
+	out := ""
+	for i, st := range l {
+		if i > 0 {
+			out += "; "
+		}
+		if x, ok := st.(*ast.IfStmt); ok {
+			out += "if " + c.Src(x.Cond) + " {" + joinStmts(c, x.Body.List) + "}"
+		} else {
+			out += c.Src(st)
+		}
+	}
+	return out
+}
+
+func usesIdent(n ast.Node, name string) bool {
+	found := false
+	ast.Inspect(n, func(x ast.Node) bool {
+		if id, ok := x.(*ast.Ident); ok && id.Name == name {
+			found = true
+		}
+		return true
+	})
+	return found
 }
 
 func lockShape(c *Ctx, body *ast.BlockStmt) string {
